@@ -6,6 +6,7 @@ import WV.Proofs.C06_Order
 import WV.Proofs.C06_Inv
 import WV.Proofs.C06_Nonce
 import WV.Proofs.C06_Cons
+import WV.Proofs.C06_Hold
 
 /-!
 C06 — Transit delivers exactly the records sent, or drops the connection.
@@ -244,6 +245,18 @@ theorem tamper_prefix (E : Env) (b : Bool) (rs : List Bytes) (hcount : rs.length
     (run E (Conn.init b leftover) ops).app.surfaced <+: rs :=
   (run_inv E rs b hcount hid.onlyHonest ops (Conn.init b leftover) rfl (init_inv rs b leftover)).1
 
+/-- **prefix, with a transport that holds bytes back.**  The transport keeps what arrives while paused and hands
+    it to `dataReceived` *synchronously* from `resumeProducing()` — called by the application, or by a consumer
+    from inside its `registerProducer()` while `connectConsumer` is still running.  Because `connectConsumer`
+    registers the producer *before* it sets `_consumer`, whatever those held bytes yield is queued behind the
+    records already queued, and the consumer then gets all of them in order: for every schedule of arrivals,
+    holds, resumes, "ready" consumers, application calls and losses, and any bytes whatsoever, what was handed
+    out plus what is queued is a prefix of what the peer sent. -/
+theorem holding_transport_prefix (E : Env) (b : Bool) (rs : List Bytes) (hcount : rs.length ≤ 256 ^ 24)
+    (hid : IdealFor E.box (receiverRecordKey E b) rs) (leftover : Bytes) (ops : List HOp) :
+    (hrun E { c := Conn.init b leftover, held := [] } ops).c.app.surfaced <+: rs :=
+  (hrun_inv E rs b hcount hid.onlyHonest ops { c := Conn.init b leftover, held := [] } rfl (init_inv rs b leftover)).1
+
 /-- **nonce must equal counter**, before and regardless of any cryptography: a non-empty blob whose first
     24 bytes do not decode to the receive counter is `BadNonce` even if the box would open it — so an
     authentic record replayed, reordered, or presented after a deletion is refused -/
@@ -405,7 +418,7 @@ theorem consumer_mode_same_bytes (E : Env) (b : Bool) (rs : List Bytes) (hcount 
     have hp : potential App.init [.script [.consume (some N) []]] = 6 := by
       simp [potential, App.init, agendaWeight, Frame.weight, szList, Act.sz, consumerWeight]
     simp only [appCall, settle, hp]
-    simp [runAgenda, appStep, attachConsumer, App.init, hne, lookupDone, a1]
+    simp [runAgenda, appStep, attachConsumer, finishAttach, App.init, hne, lookupDone, a1]
   have hstep : step E (Conn.init (!b)) (.call [.consume (some N) []]) = { Conn.init (!b) with app := a1 } := by
     simp only [step, Conn.init]; rw [happ]
   have hci : ConsInv a1 := by intro _; rfl
@@ -440,7 +453,7 @@ theorem consume_zero_fires_at_once (a : App) (hc : a.consumer = none) (hs : a.st
       (2 * a.inbound.length + (a.waiting.map (fun d => szOpt d.cb)).sum) + 6 := by
     simp [potential, agendaWeight, Frame.weight, szList, Act.sz, consumerWeight, hc]
   simp only [appCall, settle, hp]
-  simp [runAgenda, appStep, attachConsumer, writeEvents, hc, hs, writeToConsumer, consumerDone, disconnectConsumer,
+  simp [runAgenda, appStep, attachConsumer, finishAttach, writeEvents, hc, hs, writeToConsumer, consumerDone, disconnectConsumer,
     lookupDone, App.emit]
 
 /-- the bytes that ride behind the handshake in the same `dataReceived` call are simply the first chunk
@@ -551,6 +564,18 @@ example :
     let c := run exEnv (Conn.init false) [.call [.read [.pause, .read []]], .data wire, .call [.resume], .lost]
     seen c = [.fired 0 [1, 2, 3], .tpause, .lose, .tresume, .failed 1] ∧ c.state = .hungUp ∧
     c.error = some .badNonce := by decide +kernel
+
+/-- records 0,1 queued; the transport, paused, holds 2,3,4; a consumer that resumes its producer from
+    `registerProducer()` is attached: the held records are decrypted before `_consumer` is set, so the consumer
+    gets 0,1,2,3,4 in order -/
+example :
+    let k := senderRecordKey exEnv true
+    let w01 := frame (blob exEnv k 0 [1, 2, 3]) ++ frame (blob exEnv k 1 [])
+    let w234 := frame (blob exEnv k 2 [9]) ++ frame (blob exEnv k 3 [4, 4]) ++ frame (blob exEnv k 4 [7])
+    let h := hrun exEnv { c := Conn.init false, held := [] }
+      [.op (.data w01), .op (.call [.pause]), .hold w234, .attachReady none []]
+    seen h.c = [.tpause, .reg, .tresume, .cwrite [1, 2, 3], .cwrite [], .cwrite [9], .cwrite [4, 4], .cwrite [7]] ∧
+    h.c.app.surfaced = exRs ∧ h.held = [] := by decide +kernel
 
 /-- consumer expecting 3 bytes: gets record 0, fires with 3; the other records stay queued -/
 example :
